@@ -172,12 +172,18 @@ claim("C09",
            "write_database/initialize_database is read back as exactly the target schema (names, datatypes, flags, comments) for "
            "schemas over identifiers, incl. one-character relation names, proved at line level against a hand-coded model of the "
            "two _parse_schema patterns; the stored text is split at \\n only in both physical forms, so string values containing "
-           "CR, NUL, VT, FF etc. survive, proved for all strings.",
+           "CR, NUL, VT, FF etc. survive, proved for all strings. Round 5: the relations file is modelled as CHARACTER text (the "
+           "str.splitlines and white-space sets incl. their Unicode members): readSchema (writeSchema s) = s for an explicit decidable "
+           "predicate schemaOkB whose clauses are each shown necessary by a decide-checked witness (schemaOk_clauses_needed), text "
+           "stability, and written_database_reopens (the written directory's relations text is exactly writeSchema target; re-opening "
+           "yields the target schema); the raw, autocast and three column-selecting reading interfaces are model functions proved to "
+           "return the projection/cast of the raw read (getitem_reads_open, autocast_is_cast_of_raw, select_is_projection, "
+           "select_cast_is_projection_then_cast, select_auto_is_projection) and compared with the code after every step.",
       note="The model abstracts the file system: a relation is two optional line lists with logical mtimes, gzip is the identity, "
            "no crash points. Tied to the code by the correspondence run (4209 cases quick incl. exhaustive histories up to length "
            "3 over 6 start states; 34085 thorough). 'A rejected request changes nothing' holds in the model by construction; on "
-           "the real code it is checked by a byte digest after every rejected step. Schema text round trip, select_from/tsdb.open "
-           "interfaces, flags and comments: direct oracle only. 'Preserves every record' is read modulo the documented "
+           "the real code it is checked by a byte digest after every rejected step. The equivalence schemaOkB <-> round trip is "
+           "established on 16 witnesses only (the direction schemaOkB -> round trip is proved); the word-character class is ASCII. 'Preserves every record' is read modulo the documented "
            "replacement of an empty cell by Field.default. Relation names dot-free. Typed (autocast) sources are modelled through the C08 cast/format and generated with falsy and edge values (0, 0.0, -1, epoch dates, '0' strings); cases with float columns are decided by the direct oracle only.",
       technique="Lean 4 proof over executable model + differential correspondence with the Python implementation",
       design_ref="DESIGN.md §5 C09")
